@@ -11,7 +11,7 @@
        recorded at the end tile the source, and their slices concatenate to it (each character in exactly one span).
    NOT proved: that each handler's step records such spans (needs the parser model); the oracle decides it. *)
 From Coq Require Import ZArith List Bool Lia Arith.
-From Verif Require Import PyStr Rx RxSpec RxAnalysis RxSub RxSubProofs ReplaceProofs Loop LoopProofs UnicodeGen RxGen SubSitesGen.
+From Verif Require Import PyStr Rx RxSpec RxAnalysis RxSub RxSubProofs ReplaceProofs Loop LoopProofs UnicodeGen RxGen SubSitesGen RxCov Inline Block BlockProofs BlockCons BlockGen Entry C01.
 Import ListNotations.
 Local Open Scope nat_scope.
 
@@ -113,3 +113,106 @@ Print Assumptions C03_sub_sites_keep_words.
 Print Assumptions C03_replace_sites_keep_words.
 Print Assumptions C03_group_inside_match.
 Print Assumptions C03_loop_partition.
+
+(* ===== (4) the block parser model conserves text (Model/Block.v, Proofs/BlockCons.v) =====
+   For every text s and every ASCII letter x: the number of x in s equals the number of x in the text fields of the
+   block token tree (paragraph / heading text, code and its info string, HTML blocks, at every depth)
+   + the number of x in the reference table (label, title, and a pre-image of the destination under escape_url)
+   + the number of x in what was discarded, and a discard happens only when a link reference definition repeats a
+   label that is already defined (then the table is not empty).
+   Hence nothing is emitted twice, and when the text defines no reference nothing is lost: the two multisets of letters
+   are equal.  (Digits are excluded: ordered list markers hold digits that become the integer `start`.) *)
+Definition ascii_letters : list Z := map Z.of_nat (seq 65 26 ++ seq 97 26).
+
+Lemma memc_In_local c l : memc c l = true -> In c l.
+Proof. induction l as [|a l IH]; cbn; [discriminate|]. intros H. apply orb_true_iff in H. destruct H as [H|H]; [left; symmetry; apply Z.eqb_eq; exact H|right; exact (IH H)]. Qed.
+
+Lemma keep_complement (p : Z -> bool) : forallb (fun k => negb (p k)) ascii_letters = true -> forall c, p c = true -> memc c ascii_letters = false.
+Proof.
+  intros H c Hc. destruct (memc c ascii_letters) eqn:E; [|reflexivity]. apply memc_In_local in E. rewrite forallb_forall in H. specialize (H c E). rewrite Hc in H. discriminate.
+Qed.
+
+Ltac lb_cases Hin :=
+  cbn [b_lb_rules] in Hin; unfold lb_rules_of in Hin;
+  match type of Hin with In _ (lb_named (match ?w with _ => _ end)) => destruct w as [|[|[|w]]] end;
+  match type of Hin with In _ (lb_named ?l) => let v := eval vm_compute in (lb_named l) in change (lb_named l) with v in Hin end;
+  cbn [In] in Hin; repeat (destruct Hin as [Hin|Hin]; [inversion Hin; subst; first [split; vm_compute; reflexivity|vm_compute; reflexivity|discriminate]|]); try contradiction.
+
+Lemma block_cfg_cons : forall C, block_cfg = Some C -> bcfg_cons C ascii_letters.
+Proof.
+  intros C H. unfold block_cfg in H.
+  match type of H with context [opt_all ?l] => let v := eval vm_compute in (opt_all l) in change (opt_all l) with v in H end.
+  inversion H; subst C; clear H.
+  constructor; cbn [b_uni b_spec b_is_ws b_item_rx b_bracket_start b_bracket b_href_block b_title b_blank_to_line b_quote_trim b_quote_leading
+                     b_expand_tab b_strip_end b_escape_char b_indent_code_trim b_atx_trim b_blank_line b_line_has_text].
+  - reflexivity.
+  - reflexivity.
+  - apply keep_complement. vm_compute. reflexivity.
+  - reflexivity.
+  - reflexivity.
+  - intros r [Hk|[->|(w & Hin)]]; [discriminate|vm_compute; reflexivity|lb_cases Hin].
+  - intros r [Hk|[->|(w & Hin)]]; [discriminate|split; vm_compute; reflexivity|lb_cases Hin].
+  - intros r [Hk|[->|(w & Hin)]]; [discriminate|split; vm_compute; reflexivity|lb_cases Hin].
+  - intros r [Hk|[->|(w & Hin)]]; [discriminate|split; vm_compute; reflexivity|lb_cases Hin].
+  - intros r [Hk|[->|(w & Hin)]]; [discriminate|split; vm_compute; reflexivity|lb_cases Hin].
+  - intros r [Hk|[->|(w & Hin)]]; [discriminate|vm_compute; reflexivity|lb_cases Hin].
+  - split; vm_compute; reflexivity.
+  - vm_compute. reflexivity.
+  - apply keep_complement. vm_compute. reflexivity.
+  - intros w r Hin. lb_cases Hin.
+  - intros r [Hk|[->|(w & Hin)]]; [discriminate|split; vm_compute; reflexivity|lb_cases Hin].
+  - intros r [Hk|[->|(w & Hin)]]; [discriminate|split; vm_compute; reflexivity|lb_cases Hin].
+  - intros b w. unfold item_rx_of.
+    repeat match goal with |- context [if ?c then _ else _] => destruct c end; destruct w as [|[|[|w]]]; split; vm_compute; reflexivity.
+  - intros r [Hk|[->|(w & Hin)]]; [discriminate|vm_compute; reflexivity|lb_cases Hin].
+  - vm_compute. reflexivity.
+  - vm_compute. reflexivity.
+  - vm_compute. reflexivity.
+  - vm_compute. reflexivity.
+  - vm_compute. reflexivity.
+  - split; vm_compute; reflexivity.
+  - split; vm_compute; reflexivity.
+  - split; vm_compute; reflexivity.
+  - split; vm_compute; reflexivity.
+  - split; vm_compute; reflexivity.
+  - split; vm_compute; reflexivity.
+  - split; vm_compute; reflexivity.
+Qed.
+
+Theorem C03_block_parse_conserves_letters : forall C s toks rf x, block_cfg = Some C -> block_parse C s = Ok (toks, rf) ->
+  exists n d, RW C ascii_letters x rf n /\ tws ascii_letters x toks + n + d = mu ascii_letters x s /\ (rf = [] -> d = 0).
+Proof. intros C s toks rf x HC. exact (block_parse_conserves C ascii_letters x (block_cfg_ok C HC) (block_cfg_cons C HC) s toks rf). Qed.
+
+(* nothing is emitted twice: tree and table together never hold more of a letter than the source *)
+Corollary C03_block_parse_never_duplicates : forall C s toks rf x, block_cfg = Some C -> block_parse C s = Ok (toks, rf) ->
+  exists n, RW C ascii_letters x rf n /\ tws ascii_letters x toks + n <= mu ascii_letters x s.
+Proof.
+  intros C s toks rf x HC H. destruct (C03_block_parse_conserves_letters C s toks rf x HC H) as (n & d & R & E & _). exists n. split; [exact R|lia].
+Qed.
+
+(* nothing is lost: a text that defines no reference keeps every letter, exactly as often, in its token tree *)
+Corollary C03_block_parse_loses_nothing : forall C s toks x, block_cfg = Some C -> block_parse C s = Ok (toks, []) ->
+  tws ascii_letters x toks = mu ascii_letters x s.
+Proof.
+  intros C s toks x HC H. destruct (C03_block_parse_conserves_letters C s toks [] x HC H) as (n & d & R & E & Z).
+  rewrite (Z eq_refl) in E. inversion R as [|rf0 n0 ? ? ? ? ? ? ? Hx]; [lia|]. destruct rf0; discriminate.
+Qed.
+
+(* non-vacuity: a quote that is interrupted by a list, a fenced block with an info string, a setext heading and a
+   reference definition with a title - the model parses it, and the letter a (97) occurs 13 times: 10 in the tree, 3 in the table entry (label, destination, title) *)
+(* "> alpha a\nlazy a\n- item a\n  more\n\n```lang a\ncode a\n```\nTitle a\n===\n\n[lab]: /a 'ta'\n" *)
+Definition c03_sample : str :=
+  [62; 32; 97; 108; 112; 104; 97; 32; 97; 10; 108; 97; 122; 121; 32; 97; 10; 45; 32; 105; 116; 101; 109; 32; 97; 10; 32; 32; 109; 111; 114; 101; 10; 10; 96; 96; 96; 108; 97; 110; 103; 32; 97; 10; 99; 111; 100; 101; 32; 97; 10; 96; 96; 96; 10; 84; 105; 116; 108; 101; 32; 97; 10; 61; 61; 61; 10; 10; 91; 108; 97; 98; 93; 58; 32; 47; 97; 32; 39; 116; 97; 39; 10]%Z.
+Example C03_conservation_example :
+  match block_cfg with
+  | Some C => match block_parse C c03_sample with
+              | Ok (toks, rf) => (tws ascii_letters 97%Z toks, List.length rf, mu ascii_letters 97%Z c03_sample) = (10, 1, 13)
+              | _ => False
+              end
+  | None => False
+  end.
+Proof. vm_compute. reflexivity. Qed.
+
+Print Assumptions C03_block_parse_conserves_letters.
+Print Assumptions C03_block_parse_never_duplicates.
+Print Assumptions C03_block_parse_loses_nothing.
